@@ -866,6 +866,8 @@ impl Handler {
             "Received an Authentication header message",
         );
 
+        // A challenge that is put back after a failed handshake keeps its original expiry.
+        let challenge_deadline = self.active_challenges.deadline(&node_address);
         if let Some(challenge) = self.active_challenges.remove(&node_address) {
             match Session::establish_from_challenge(
                 self.key.clone(),
@@ -935,8 +937,14 @@ impl Handler {
                         %node_address,
                         "Authentication header contained invalid signature. Ignoring packet from node",
                     );
-                    // insert back the challenge
-                    self.active_challenges.insert(node_address, *challenge);
+                    // insert back the challenge, without extending its lifetime
+                    let remaining = challenge_deadline
+                        .map(|deadline| {
+                            deadline.saturating_duration_since(tokio::time::Instant::now())
+                        })
+                        .unwrap_or_default();
+                    self.active_challenges
+                        .insert_at(node_address, *challenge, remaining);
                 }
                 Err(e) => {
                     warn!(
